@@ -139,6 +139,20 @@ func C17_Recovery() {
 	second := []string{"var = 2", "print ( 2", "eval 2 *", "def { }", "def t f = 1 }", "print"}
 	a := first[verif.Choice("first", len(first))]
 	b := second[verif.Choice("second", len(second))]
+	// any one or two further tokens (symbolic bytes of the token alphabet, so
+	// also stray braces and parentheses) behind the first faulty statement
+	if n := verif.Choice("extra", 2+verif.Tier()); n > 0 {
+		x := verif.Bytes("x", n)
+		for _, c := range x {
+			// punctuation only: a letter or digit glued to what precedes it can
+			// be a lexical failure, which ends the parse at once
+			verif.Assume(c17InAlphabet(c) && c != '1' && c != 'a' && c != ' ')
+		}
+		a += " " + string(x)
+		if _, syn := refbcl.ParseProgram(refbcl.Tokens(a)); syn == nil {
+			return // the extra tokens completed the statement
+		}
+	}
 	src := a + "\n" + b + "\n"
 	out, log := &symio.Writer{}, &symio.Writer{}
 	_, _, err := bcl.Interpret([]byte(src), bcl.OptOutput(out), bcl.OptLogger(log))
